@@ -220,6 +220,12 @@ func c18Direct(r *fw.Run, c *c18Case) {
 			report("stream-not-contiguous", "read #%d (%s) returned %q at stream offset %d where the peer sent %q: bytes were skipped, duplicated or reordered", i, map[int]string{0: "ReadBytes", 1: fmt.Sprintf("Read(%d)", n)}[kind], clip(string(chunk), 80), at, clip(string(c.Stream[min(at, len(c.Stream)):]), 80))
 			break
 		}
+		if n == 0 && len(chunk) > 0 {
+			if j := bytes.IndexByte(chunk, 0); j >= 0 && j != len(chunk)-1 {
+				report("readbytes-ran-past-delimiter", "ReadBytes returned %d bytes with the first delimiter at index %d: the frame read consumed %d bytes that follow the frame (%q...)", len(chunk), j, len(chunk)-1-j, clip(string(chunk[j+1:]), 40))
+				break
+			}
+		}
 		if n == 0 && err == nil && (len(chunk) == 0 || chunk[len(chunk)-1] != 0) {
 			report("readbytes-without-delimiter", "ReadBytes returned %q without the delimiter and without an error", clip(string(chunk), 80))
 			break
@@ -545,6 +551,32 @@ func runC18(r *fw.Run) {
 		S := append(append([]byte{}, frame...), payload...)
 		cases = append(cases, &c18Case{Transport: []string{"pipe", "unix", "tcp"}[k%3], Stream: S, Seg: Seg{}, Reads: [][]int{{0, 16, 16, 16, 16, 16, 16, 16, 16, 16, 16, 16, 16, 16, 16, 16, 16, 16, 16, 16, 16, 16, 16, 16, 16, 16, 16, 16, 16, 16, 16, 16, 16, 16, 16, 16, 16, 16, 16}, {0, 4096, 4096}, {0, 1, 1, 1, 1, 1, 1, 1, 1, 1, 1, 1, 1, 1, 1, 1, 1, 1, 1, 1, 1, 1, 1, 1, 1, 1, 1, 1, 1, 1, 1, 1, 1, 1, 1, 1, 1, 1, 1, 1, 1, 1, 1, 1, 1, 1, 1, 1, 1, 1, 1, 1, 1, 1, 1, 1, 1, 1, 1, 1, 1}}[k%3], What: "big frame+payload coalesced"})
 	}
+	// frames whose length (delimiter included) is exactly, or one to three bytes off, a multiple of the 4096-byte reader buffer,
+	// payload right behind them in the same segment
+	{
+		k := 0
+		centres := []int{4096, 8192, 12288, 16384, 65536}
+		if r.Thorough {
+			centres = append(centres, 20480, 32768, 131072, 1<<20)
+		}
+		head := []byte(`{"method":"x.y.Up","upgrade":true,"pad":"`)
+		for _, centre := range centres {
+			for d := -3; d <= 3; d++ {
+				for rs := 0; rs < 3; rs++ {
+					flen := centre + d - len(head) - 3
+					frame := append(append([]byte{}, head...), bytes.Repeat([]byte("q"), flen)...)
+					frame = append(frame, []byte(`"}`)...)
+					frame = append(frame, 0)
+					payload := genStream(rng, 1+rng.Intn(600))
+					S := append(append([]byte{}, frame...), payload...)
+					reads := [][]int{{0, 16, 16, 16, 16, 16, 16, 16, 16, 16, 16, 16, 16, 16, 16, 16, 16, 16, 16, 16, 16, 16, 16, 16, 16, 16, 16, 16, 16, 16, 16, 16, 16, 16, 16, 16, 16, 16, 16}, {0, 4096, 4096}, {0, 0, 7, 0, 4095}}[rs]
+					cases = append(cases, &c18Case{Transport: []string{"pipe", "unix", "tcp"}[k%3], Stream: S, Seg: Seg{}, Reads: reads, What: "frame of exact length+payload coalesced"})
+					k++
+				}
+			}
+		}
+		r.Count("exact_length_frames", int64(k))
+	}
 	fw.Parallel(8, len(cases), func(w, i int) {
 		c := cases[i]
 		if r.ViolationCount() > 12 {
@@ -673,7 +705,7 @@ func replayC18(r *fw.Run, raw json.RawMessage) {
 func init() {
 	fw.Register(&fw.Engine{
 		ID: "C18", Level: "exploration",
-		Rule: "(a) stream-integrity monitor on the library's context aware connection (white-box constructor) over an in-memory pipe, a unix socketpair and a TCP pair: the peer sends a known byte stream (frames and raw payload mixed, NULs anywhere, lengths 0..70000 around 4096/8192) under a segmentation schedule (one write, byte-wise, random cuts with pauses, at frame boundaries, at 4095/4096/4097...), the consumer interleaves ReadBytes(NUL) and Read(n), n in {1,3,5,7,16,4095,4096,4097,65536} in 11 patterns; after every read the concatenation of everything returned must be a prefix of what was sent, and equal to it at end of stream; plus the decisive shape 'frame and raw payload in one segment'. (b) end to end: a raw client sends an upgrade call and the payload in one segment (and in two) to a real Service whose handler then reads Call.Conn; a scripted server sends reply frame and payload in one segment (and in two) to a real Connection that called Upgrade and reads the returned object. The bytes read must be exactly the payload, starting immediately after the frame. non-trivial = stream longer than one byte; distinct by (stream hash, schedule, read pattern). Also: frames of 4090..70000 bytes with the payload in the same segment; duplex use (one goroutine writes a stream, another reads its echo on the same connection).",
+		Rule: "(a) stream-integrity monitor on the library's context aware connection (white-box constructor) over an in-memory pipe, a unix socketpair and a TCP pair: the peer sends a known byte stream (frames and raw payload mixed, NULs anywhere, lengths 0..70000 around 4096/8192) under a segmentation schedule (one write, byte-wise, random cuts with pauses, at frame boundaries, at 4095/4096/4097...), the consumer interleaves ReadBytes(NUL) and Read(n), n in {1,3,5,7,16,4095,4096,4097,65536} in 11 patterns; after every read the concatenation of everything returned must be a prefix of what was sent, and equal to it at end of stream; plus the decisive shape 'frame and raw payload in one segment'. (b) end to end: a raw client sends an upgrade call and the payload in one segment (and in two) to a real Service whose handler then reads Call.Conn; a scripted server sends reply frame and payload in one segment (and in two) to a real Connection that called Upgrade and reads the returned object. The bytes read must be exactly the payload, starting immediately after the frame. non-trivial = stream longer than one byte; distinct by (stream hash, schedule, read pattern). Also: frames of 4090..70000 bytes with the payload in the same segment; duplex use (one goroutine writes a stream, another reads its echo on the same connection). A frame read must end at the first delimiter. Also frames whose length with the delimiter is a multiple of 4096 (4096 .. 65536, thorough to 1 MiB) or up to three bytes off, payload coalesced behind them.",
 		Assumptions: []string{"a second segment is sent after the payload so that a reader that skipped the coalesced bytes is seen to return later bytes instead"},
 		Run:         runC18, Replay: replayC18, CrashIsViolation: true, MinEvals: 100,
 		QuickTimeout: 15 * time.Minute, ThoroughTimeout: 60 * time.Minute,
